@@ -296,6 +296,7 @@ func c08(p *model.Prog, r *report.Result) {
 	r.Check(sizes[11] && sizes[7] && sizes[3] && sizes[4], "C08.R4", fkey(runLoop, "layout", "header-sizes"), p.Pos(runLoop.Pos()), "reader consumes 11/7/3 header bytes and 4 extended bytes", "the reader's per-format header sizes differ from 11/7/3(+4)")
 	c08r56(p, r, calc, runLoop)
 	c08r7(p, r, runLoop)
+	c08r89(p, r, calc, runLoop)
 }
 
 // c08r56 adds the basic-header byte rule (R5) and the reader's absolute/delta typestate (R6).
